@@ -784,6 +784,68 @@ def render_eq() -> str:
     return "\n".join(lines)
 
 
+# ---------------------------------------------------------------------------------------------
+# CacheValidatorBase (koda_validate/base.py) -> Koda.CStmt (lean/KodaModel/PyCache.lean)
+
+OUT_CACHE = os.path.join(os.path.dirname(OUT), "CacheSrc.lean")
+CVARS = {"cache_result": "cacheResult", "result": "result"}
+CMETHS = {"cache_get_sync": "getSync", "cache_set_sync": "setSync", "cache_get_async": "getAsync", "cache_set_async": "setAsync"}
+CATTRS = {"is_just": "isJust", "val": "valA"}
+
+
+class KTr:
+    def exp(self, e: ast.expr) -> str:
+        if isinstance(e, ast.Name):
+            if e.id == "val":
+                return ".val"
+            if e.id in CVARS:
+                return f"(.var .{CVARS[e.id]})"
+        if isinstance(e, ast.Await):
+            return f"(.await {self.exp(e.value)})"
+        if isinstance(e, ast.Attribute) and not (isinstance(e.value, ast.Name) and e.value.id == "self"):
+            a = f".{CATTRS[e.attr]}" if e.attr in CATTRS else f"(.other {lstr(e.attr)})"
+            return f"(.attr {self.exp(e.value)} {a})"
+        if isinstance(e, ast.Call) and not e.keywords and not any(isinstance(a, ast.Starred) for a in e.args):
+            f, args = e.func, e.args
+            src = ast.unparse(f)
+            if src == "self.validator" and len(args) == 1:
+                return f"(.callValidator {self.exp(args[0])})"
+            if src == "self.validator.validate_async" and len(args) == 1:
+                return f"(.validatorAsync {self.exp(args[0])})"
+            if isinstance(f, ast.Attribute) and isinstance(f.value, ast.Name) and f.value.id == "self" and len(args) in (1, 2):
+                m = f".{CMETHS[f.attr]}" if f.attr in CMETHS else f"(.other {lstr(f.attr)})"
+                return f"(.selfMeth{len(args)} {m} {' '.join(self.exp(a) for a in args)})"
+        return f"(.unsupported {lstr(ast.dump(e)[:160])})"
+
+    def stmt(self, s: ast.stmt) -> str:
+        if isinstance(s, ast.Assign) and len(s.targets) == 1 and isinstance(s.targets[0], ast.Name) and s.targets[0].id in CVARS:
+            return f"(.assign .{CVARS[s.targets[0].id]} {self.exp(s.value)})"
+        if isinstance(s, ast.If):
+            return f"(.ite {self.exp(s.test)} {self.block(s.body)} {self.block(s.orelse)})"
+        if isinstance(s, ast.Return) and s.value is not None:
+            return f"(.ret {self.exp(s.value)})"
+        if isinstance(s, ast.Expr):
+            return f"(.expr {self.exp(s.value)})"
+        return f"(.unsupported {lstr(ast.dump(s)[:160])})"
+
+    def block(self, body: List[ast.stmt]) -> str:
+        body = [s for s in body if not (isinstance(s, ast.Expr) and isinstance(s.value, ast.Constant))]
+        return "[" + ", ".join(self.stmt(s) for s in body) + "]"
+
+
+def render_cache() -> str:
+    lines = ["/- GENERATED by harness/pysrc.py from the current source of /repo/koda_validate/base.py — do not edit -/",
+             "import KodaModel.PyCache", "", "namespace Koda.Src", ""]
+    for meth, name in (("__call__", "cacheSync"), ("validate_async", "cacheAsync")):
+        m = _find_method("base.py", "CacheValidatorBase", meth)
+        ok = (m is not None and [a.arg for a in m.args.args] == ["self", "val"] and not m.decorator_list
+              and isinstance(m, ast.AsyncFunctionDef) == (meth == "validate_async"))
+        term = KTr().block(m.body) if ok else '[.unsupported "not found / signature"]'
+        lines += [f"def {name} : List CStmt :=", f"  {term}", ""]
+    lines += ["end Koda.Src", ""]
+    return "\n".join(lines)
+
+
 def render() -> str:
     found = collect()
     lines = ["/- GENERATED by harness/pysrc.py from the current source of /repo/koda_validate — do not edit -/",
@@ -802,7 +864,7 @@ def render() -> str:
 
 def regenerate() -> bool:
     changed = False
-    for path, new in ((OUT, render()), (OUT_COERCE, render_coerce()), (OUT_SCALAR, render_scalar()), (OUT_UNION, render_union()), (OUT_LIST, render_list()), (OUT_WRAP, render_wrap()), (OUT_EQ, render_eq())):
+    for path, new in ((OUT, render()), (OUT_COERCE, render_coerce()), (OUT_SCALAR, render_scalar()), (OUT_UNION, render_union()), (OUT_LIST, render_list()), (OUT_WRAP, render_wrap()), (OUT_EQ, render_eq()), (OUT_CACHE, render_cache())):
         old = open(path).read() if os.path.exists(path) else None
         if new != old:
             with open(path, "w") as f:
